@@ -554,6 +554,11 @@ _upd(
 _upd("C19", CLAIMED["C19"][0] + " The code written into the file is `str(id)` and that is a Python integer literal for EVERY id, also below 100 "
      "(code_literal_valid: digits only, no leading zero; a zero-padded rendering such as 008 is refuted as a literal, padded_code_invalid).")
 
+_upd("C15", CLAIMED["C15"][0] + " Which version a run targets is proved on the settings model too: a --python-version on the command line decides "
+     "whatever the config file says, also when it equals the running interpreter's version (target_cli_wins), the config's python_version is "
+     "the fallback and the interpreter the default (target_config_fallback, target_default), so monotonicity holds under any config "
+     "(monotone_under_any_config).")
+
 def main() -> int:
     m = build()
     (VERIF / "MANIFEST.json").write_text(json.dumps(m, indent=1, ensure_ascii=False) + "\n")
